@@ -26,7 +26,7 @@ struct GNode {
   uint64_t gp = 0;
   unsigned cdepth = 0, ctype = 0, linesize = 0; int assoc = 0; uint64_t csize = 0;   // caches
   unsigned gkind = 0, gsubkind = 0; bool dont_merge = false;                          // groups
-  uint64_t localmem = 0;                                                               // NUMA nodes
+  uint64_t localmem = 0; std::vector<std::pair<uint64_t, uint64_t>> pages;                                                               // NUMA nodes
   unsigned pdom = 0, pbus = 0, pdev = 0, pfunc = 0, secbus = 0, subbus = 0; bool hostbridge = false; unsigned osdev = 0;   // I/O
 };
 
@@ -104,9 +104,10 @@ static void gx_write(const GenXml &g, const GNode *n, std::string &o, int ind, b
   if (n->type == HWLOC_OBJ_BRIDGE) { if (n->hostbridge) o += strf(" bridge_type=\"0-1\" depth=\"0\" bridge_pci=\"%04x:[%02x-%02x]\"", n->pdom, n->secbus, n->subbus); else o += strf(" bridge_type=\"1-1\" depth=\"1\" bridge_pci=\"%04x:[%02x-%02x]\" pci_busid=\"%04x:%02x:%02x.%01x\" pci_type=\"0604 [8086:3c08] [0000:0000] 07 00\" pci_link_speed=\"0.000000\"", n->pdom, n->secbus, n->subbus, n->pdom, n->pbus, n->pdev, n->pfunc); }
   if (n->type == HWLOC_OBJ_PCI_DEVICE) o += strf(" pci_busid=\"%04x:%02x:%02x.%01x\" pci_type=\"0200 [8086:1521] [00d9:0021] 01 00\" pci_link_speed=\"2.000000\"", n->pdom, n->pbus, n->pdev, n->pfunc);
   if (n->type == HWLOC_OBJ_OS_DEVICE) o += strf(" osdev_type=\"%u\"", n->osdev);
-  bool leaf = n->mem.empty() && n->kids.empty() && n->io.empty() && n->misc.empty() && n->infos.empty();
+  bool leaf = n->mem.empty() && n->kids.empty() && n->io.empty() && n->misc.empty() && n->infos.empty() && n->pages.empty();
   if (leaf) { o += "/>\n"; return; }
   o += ">\n";
+  for (auto &pg : n->pages) o += pad + strf("  <page_type size=\"%llu\" count=\"%llu\"/>\n", (unsigned long long)pg.first, (unsigned long long)pg.second);
   for (auto &kv : n->infos) o += pad + "  <info name=\"" + gx_esc(kv.first) + "\" value=\"" + gx_esc(kv.second) + "\"/>\n";
   for (auto &m : n->mem) gx_write(g, m.get(), o, ind + 2, false); for (auto &k : n->kids) gx_write(g, k.get(), o, ind + 2, false); for (auto &k : n->io) gx_write(g, k.get(), o, ind + 2, false); for (auto &k : n->misc) gx_write(g, k.get(), o, ind + 2, false);
   o += pad + "</object>\n";
@@ -137,6 +138,7 @@ static GenXml gen_xml(Draw &d, const GenXmlOpts &o = GenXmlOpts()) {
   unsigned nnuma = 1 + (d.chance(1, 2) ? d.range(0, 4) : 0); unsigned nidx = d.chance(1, 4) ? d.range(0, 2) : 0; std::vector<unsigned> nos; for (unsigned i = 0; i < nnuma; i++) { nos.push_back(nidx); nidx += 1 + (d.chance(1, 5) ? d.range(1, 3) : 0); }
   int attach_mode = d.range(0, 2);   // 0: anywhere, 1: all at the root, 2: at one level's objects in order
   for (unsigned i = 0; i < nnuma; i++) { GNode *host = attach_mode == 1 ? root : x.normals[d.raw() % x.normals.size()]; auto nn = gx_new(x, HWLOC_OBJ_NUMANODE); nn->os = nos[i]; nn->localmem = d.chance(1, 6) ? 0 : ((uint64_t)d.range(1, 64) << 26); g.total_memory += nn->localmem; g.numas.insert(nos[i]);
+    if (d.chance(1, 2)) { nn->pages.push_back({4096, nn->localmem / 4096}); if (d.chance(1, 2)) nn->pages.push_back({2097152, nn->localmem ? (uint64_t)d.range(0, 8) : 0}); }   // memory-less nodes list their page sizes too (count 0), as Linux reports them
     if (!host->mem.empty()) g.multi_numa_obj = true;
     if (d.chance(1, 6)) { auto mc = gx_new(x, HWLOC_OBJ_MEMCACHE); mc->cdepth = 1; mc->ctype = 0; mc->csize = (uint64_t)d.range(1, 16) << 24; mc->linesize = 64; mc->assoc = 0; mc->mem.push_back(std::move(nn)); host->mem.push_back(std::move(mc)); g.has_memcache = true; } else host->mem.push_back(std::move(nn)); }
   for (GNode *n : x.normals) std::sort(n->mem.begin(), n->mem.end(), [](const std::unique_ptr<GNode> &a, const std::unique_ptr<GNode> &b) { long oa = a->type == HWLOC_OBJ_MEMCACHE ? a->mem[0]->os : a->os, ob = b->type == HWLOC_OBJ_MEMCACHE ? b->mem[0]->os : b->os; return oa < ob; });
@@ -174,6 +176,7 @@ static void gx_compare(Case &c, const GNode *n, hwloc_obj_t o, const GenXml &g) 
   CHECK(c, (o->name ? std::string(o->name) : std::string()) == n->name && (o->subtype ? std::string(o->subtype) : std::string()) == n->subtype, "genxml_fidelity", "%s gp %llu: name %s subtype %s, the document says %s / %s", hwloc_obj_type_string(n->type), (unsigned long long)n->gp, qstr(o->name).c_str(), qstr(o->subtype).c_str(), qstr(n->name.c_str()).c_str(), qstr(n->subtype.c_str()).c_str());
   CHECK(c, o->infos.count == n->infos.size(), "genxml_fidelity", "%s gp %llu: %u info pairs, the document has %zu", hwloc_obj_type_string(n->type), (unsigned long long)n->gp, o->infos.count, n->infos.size());
   for (unsigned i = 0; i < o->infos.count; i++) CHECK(c, n->infos[i].first == o->infos.array[i].name && n->infos[i].second == o->infos.array[i].value, "genxml_fidelity", "info pair %u of gp %llu differs", i, (unsigned long long)n->gp);
+  if (n->type == HWLOC_OBJ_NUMANODE) { CHECK(c, o->attr->numanode.page_types_len == n->pages.size(), "genxml_fidelity", "NUMA node %ld: %u page types, the document has %zu", n->os, o->attr->numanode.page_types_len, n->pages.size()); for (size_t i = 0; i < n->pages.size(); i++) CHECK(c, o->attr->numanode.page_types[i].size == n->pages[i].first && o->attr->numanode.page_types[i].count == n->pages[i].second, "genxml_fidelity", "NUMA node %ld: page type %zu is %llu x %llu, the document says %llu x %llu", n->os, i, (unsigned long long)o->attr->numanode.page_types[i].size, (unsigned long long)o->attr->numanode.page_types[i].count, (unsigned long long)n->pages[i].first, (unsigned long long)n->pages[i].second); }
   if (n->type == HWLOC_OBJ_NUMANODE) CHECK(c, o->attr->numanode.local_memory == n->localmem, "genxml_fidelity", "NUMA node %ld: local_memory %llu, the document says %llu", n->os, (unsigned long long)o->attr->numanode.local_memory, (unsigned long long)n->localmem);
   if ((n->type >= HWLOC_OBJ_L1CACHE && n->type <= HWLOC_OBJ_L3ICACHE) || n->type == HWLOC_OBJ_MEMCACHE) CHECK(c, o->attr->cache.size == n->csize && o->attr->cache.depth == n->cdepth && o->attr->cache.linesize == n->linesize && o->attr->cache.associativity == n->assoc && (unsigned)o->attr->cache.type == n->ctype, "genxml_fidelity",
       "%s gp %llu: cache attributes size %llu depth %u line %u assoc %d type %d, the document says %llu %u %u %d %u", hwloc_obj_type_string(n->type), (unsigned long long)n->gp, (unsigned long long)o->attr->cache.size, o->attr->cache.depth, o->attr->cache.linesize, o->attr->cache.associativity, (int)o->attr->cache.type, (unsigned long long)n->csize, n->cdepth, n->linesize, n->assoc, n->ctype);
